@@ -87,6 +87,7 @@ def renderRepliesE (rs : Replies) : String := s!"{b01 rs.isPositive}:{renderRepl
 
 def renderEvT : EvT → List String
   | .ev tls (.ctlWrite b) => [if tls then "cw:tls" else s!"cw:plain:{hexOfBytes b}"]
+  | .ev _ (.ctlWriteFail _) => ["cw:none"]      -- announced, never written (closed socket / SSL layer without a session)
   | .ev _ (.obsConnected _ _ _) => ["o0:c"]
   | .ev _ (.obsRequest o c) => [s!"o{o}:q:{hexOfBytes c}"]
   | .ev _ (.obsReply o c t) => [s!"o{o}:r:{c}:{hexOfBytes t}"]
@@ -172,8 +173,10 @@ def runE2eOp (w : WorldT) (op : SOp) (seg : List String) (gone : Bool := false) 
     connectOks := (o.connectOks.drop (if op.name = "connect" then 1 else 0)), listenPorts := o.listenPorts,
     dataReads := (match groups.findSome? (fun g => match g.act with | some (.send p) => some p | _ => none) with
                   | some p => List.replicate ((p.length + 8191) / 8192) (some 8192) ++
-                              [if w.tlsCtx && (op.groups.any (·.truncate)) then none else some 0]
+                              [if (w.tlsCtx && (op.groups.any (·.truncate))) || (op.groups.any fun g => g.reset && g.act matches some (.send _)) then none else some 0]
                   | none => []),
+    -- a TLS upload whose peer resets the data connection after reading: the TLS shutdown of the data connection fails
+    closeFails := if w.tlsCtx && (op.groups.any fun g => g.reset && g.act == some .recv) then [true] else [],
     blockOks := [], conn := none, sinkFailAt := none, sinkWrites := 0, sink := [], sinkFlushes := 0,
     sinkSilent := true, src := ⟨[], []⟩, srcFailAt := none, srcReads := 0, polls := [], cancelled := false, peerGot := [], trace := [] }
   let w0 : WorldT := { w with base := b0, hsOks := hsOksOf seg, dataTls := false, trace := [] }
@@ -206,6 +209,7 @@ structure E2eState where
   ctlCtx : Option String := none
   protectedSession : Bool := false     -- AUTH TLS accepted and handshake done in the current connection
   serverGone : Bool := false           -- the server has dropped the current control connection
+  tlsBroken : Bool := false            -- AUTH TLS was accepted on the current connection but its handshake failed
   ctlPeer : String := ""               -- address the current control connection was opened to
 
 /-- C11 / C18 monitors on the tokens of one operation -/
@@ -244,8 +248,10 @@ def monitorE2e (cfg : E2eCfg) (st : E2eState) (op : SOp) (seg : List String) : O
            else if !returned then none else none)
         else none
     else
+      -- a connection whose handshake failed after AUTH TLS was accepted must never carry commands in clear text
+      if st.tlsBroken && !ctlPlainSends.isEmpty then some "plaintext-after-failed-control-handshake"
       -- every other operation of a protected session: nothing in plaintext, all control sends are TLS records
-      if st.protectedSession && (!plainAll.isEmpty || !ctlPlainSends.isEmpty) then some "plaintext-on-protected-control-connection"
+      else if st.protectedSession && (!plainAll.isEmpty || !ctlPlainSends.isEmpty) then some "plaintext-on-protected-control-connection"
       else
         -- data connections: the first bytes are a handshake, everything is a TLS record, after the transfer command was accepted
         let dataRaw := raws.filter (·.fd != st.ctlFd)
@@ -463,7 +469,8 @@ def e2eOp (args : List String) (impl : String) : Option Verdict := do
         if viol.isNone then viol := monitorE2e cfg st op seg
         let prot := if op.name = "connect" then seg.contains s!"hs:{st.ctlSsl.getD 0}:1" else
                     if op.name = "disc" || op.name = "logout" then false else st.protectedSession
-        st := { st with w := w', protectedSession := prot, serverGone := if op.name = "connect" then ((op.groups.take nPlayed).any (·.closes)) else goneNow }
+        let broken := if op.name = "connect" then seg.contains s!"hs:{st.ctlSsl.getD 0}:0" else st.tlsBroken
+        st := { st with w := w', protectedSession := prot, tlsBroken := broken, serverGone := if op.name = "connect" then ((op.groups.take nPlayed).any (·.closes)) else goneNow }
       k := k + 1
     let names := ops.map (·.name)
     let tags := (if cfg.tls then ["tls"] else ["plain"]) ++ (if names.contains "get" then ["get"] else []) ++
